@@ -56,6 +56,10 @@ pub struct Session {
     /// This attachment was made under the routing id of that session while that session's attachment was
     /// still open (overlapping attachments).
     pub dup_of: Option<usize>,
+    /// This attachment was made under the routing id of that session after the runtime had completed that
+    /// session's promise (removed for inactivity) while the harness still held that session's reader open (a
+    /// write of the runtime to it may still be under way).
+    pub prev_open: Option<usize>,
 }
 
 struct Live {
@@ -178,7 +182,47 @@ impl Runner {
         let old_session = old.session;
         self.shadow.push(old);
         let (ci, co, p) = (self.cfg.cap_in[r], self.cfg.cap_out[r], self.cfg.pace[r]);
-        self.attach_as(r, ci, co, p, false, Some(old_session)).await;
+        self.attach_as(r, ci, co, p, false, Some(old_session), None).await;
+    }
+
+    /// The connection whose attachment the runtime removed for inactivity attaches again under its id, as
+    /// `Reattach`, but the reading half of the old attachment is kept as it is (stalled, with whatever write of
+    /// the runtime is under way); the script resumes or drops it later (`ResumeOld` / `DropOld`).
+    async fn reattach_over(&mut self, r: usize) {
+        let ok = self.live[r].as_ref().map_or(false, |l| {
+            let s = &self.sessions[l.session];
+            !l.reader_done && !s.is_probe && matches!(*s.completion.lock(), Some((_, Some(DisconnectionReason::RemoteTimedOut))))
+        });
+        if !ok {
+            return;
+        }
+        let mut old = self.live[r].take().expect("live");
+        if let Some(tx) = old.req_tx.take() {
+            let _ = tx.send(WriterCmd::Close);
+        }
+        let old_session = old.session;
+        self.shadow.push(old);
+        let (ci, co, p) = (self.cfg.cap_in[r], self.cfg.cap_out[r], self.cfg.pace[r]);
+        self.attach_as(r, ci, co, p, false, None, Some(old_session)).await;
+    }
+
+    /// The kept reader of remote `r`'s previous attachment reads again (`drop_it` false) or is dropped.
+    async fn old_reader(&mut self, r: usize, drop_it: bool) {
+        let Some(pos) = self.shadow.iter().rposition(|l| self.sessions[l.session].remote == r && !l.reader_done) else { return };
+        if drop_it {
+            let live = self.shadow.remove(pos);
+            if let Some(l) = self.retire(live, true, false).await {
+                self.shadow.insert(pos, l);
+            }
+        } else {
+            let live = &self.shadow[pos];
+            if live.ctl.lock().stalled {
+                set_stalled(&live.ctl, false);
+                if let Some(last) = self.sessions[live.session].stalls.last_mut() {
+                    last.1 = Some(ticket());
+                }
+            }
+        }
     }
 
     async fn attach_oneway(&mut self, k: usize) {
@@ -221,6 +265,7 @@ impl Runner {
             is_probe: false,
             one_way: true,
             dup_of: None,
+            prev_open: None,
         });
         self.oneway[k] = Some(OneWayLive { req_tx: wtx, writer, session: self.sessions.len() - 1 });
     }
@@ -251,10 +296,10 @@ impl Runner {
         if let Some(old) = self.live[r].take() {
             self.retire(old, true, true).await;
         }
-        self.attach_as(r, cap_in, cap_out, pace, is_probe, None).await;
+        self.attach_as(r, cap_in, cap_out, pace, is_probe, None, None).await;
     }
 
-    async fn attach_as(&mut self, r: usize, cap_in: usize, cap_out: usize, pace: Pace, is_probe: bool, dup_of: Option<usize>) {
+    async fn attach_as(&mut self, r: usize, cap_in: usize, cap_out: usize, pace: Pace, is_probe: bool, dup_of: Option<usize>, prev_open: Option<usize>) {
         // An attachment is normally a new connection with its own routing id. A connection that the runtime
         // removed for inactivity (completion RemoteTimedOut) attaches again under the SAME id when it has
         // something to say to the agent again (as the server's remote task does); other endings of an
@@ -265,8 +310,8 @@ impl Runner {
             .rev()
             .find(|s| s.remote == r && !s.is_probe)
             .map(|s| (s.id, matches!(*s.completion.lock(), Some((_, Some(DisconnectionReason::RemoteTimedOut))))));
-        let (id, reused_id) = match (dup_of, prev) {
-            (Some(d), _) => (self.sessions[d].id, false),
+        let (id, reused_id) = match (dup_of.or(prev_open), prev) {
+            (Some(d), _) => (self.sessions[d].id, prev_open.is_some()),
             (_, Some((id, true))) if !is_probe && self.rng.chance(2, 3) => (id, true),
             _ => (Uuid::from_u128(0x1000 + self.sessions.len() as u128), false),
         };
@@ -301,7 +346,7 @@ impl Runner {
                 Err(_) => self.stuck.push(format!("attach of remote {r} not confirmed")),
             }
         }
-        self.sessions.push(Session { remote: r, id, attached_t0: t0, attached_t1, reqs, log, completion, attached_v, completion_v, reused_id, stalls: vec![], is_probe, one_way: false, dup_of });
+        self.sessions.push(Session { remote: r, id, attached_t0: t0, attached_t1, reqs, log, completion, attached_v, completion_v, reused_id, stalls: vec![], is_probe, one_way: false, dup_of, prev_open });
         let session = self.sessions.len() - 1;
         self.live[r] = Some(Live { req_tx: Some(wtx), ctl, drop_signal, reader, reader_done: false, writer, watcher, session, pace, late: None });
     }
@@ -522,6 +567,9 @@ impl Runner {
                 }
             }
             Step::AttachDup(r) => self.attach_dup(*r).await,
+            Step::ReattachOver(r) => self.reattach_over(*r).await,
+            Step::ResumeOld(r) => self.old_reader(*r, false).await,
+            Step::DropOld(r) => self.old_reader(*r, true).await,
             Step::AttachOneWay(k) => self.attach_oneway(*k).await,
             Step::OneWay(k, kind, lane, body) => self.send_oneway(*k, *kind, lane, body.clone()),
             Step::DropOneWay(k) => {
